@@ -5,6 +5,7 @@ fn tree(e: &Expr) -> Value {
     match &e.kind {
         ExprKind::Binary(l, op, r) => json!([format!("{op:?}"), tree(l), tree(r)]),
         ExprKind::Literal(Literal::Integer(n)) => json!(n),
+        ExprKind::Unary(op, inner) => json!({"unary": format!("{op:?}"), "of": tree(inner)}),
         other => json!(format!("{other:?}").chars().take(40).collect::<String>()),
     }
 }
